@@ -123,6 +123,3 @@ theorem ignores_scriptsigs_witnesses (sha256 : Bytes → Bytes) (T : Tables) (t 
       simp only [outpointBytes, a, b, c]
 
 end C05
-
-#print axioms C05.taproot_digest_eq_bip341
-#print axioms C05.ignores_scriptsigs_witnesses
